@@ -341,3 +341,55 @@ class TextWhitespace(Obligation):
         if w not in self.seen: self.seen.add(w); rec['wit'].append(w)
         rec['sample']={'scenario':scn,'expect':'/'.join(kinds),'confirm':{'values_equal':True}}
         return rec
+
+class WritersDeterministic(Obligation):
+    """`Json::to_writer` and `JsonPretty::to_writer` (generic bodies from MIR, T bound by the harness) on a link whose artifacts carry
+    two digest algorithms (a HashMap with two entries): the bytes do not depend on the iteration order of any hash map, and they
+    parse back to the value."""
+    name='C16.writers_deterministic'
+    hash_order='fixed'
+    def __init__(self,seed=0,known=(),**kw):
+        self.seed=seed
+        self.bounds={'value':'a link with two products, each with sha256 and sha512 digests (concrete bytes), an environment map with two entries','writers':'Json::to_writer (canonical) and JsonPretty::to_writer into a Vec<u8>',
+                     'hash_map_iteration':'first run insertion order, second run every permutation of every hash map','text':'serde_json writer model (member order as handed over; a Value argument is a key-ordered tree)'}
+        self.witnesses=['same_bytes']; self.seen=set()
+    def setup(self,eng,tier):
+        self.eng=eng; self.b=B(eng)
+        self.w_pretty=eng.find_method('DataInterchange','JsonPretty','to_writer'); self.w_json=eng.find_method('DataInterchange','Json','to_writer')
+    def entry(self,eng):
+        def go(run,args):
+            mk=args[0]; outs=[]
+            run.ghost['tysubst']={'T':'LinkMetadata','W':'Vec<u8>'}
+            for fn in (self.w_pretty,self.w_json):
+                res=[]
+                for mode in ('fixed','all'):
+                    run.hash_order=mode
+                    buf=VecO([])
+                    r=eng.call_fn(run,fn,[buf,Ref(Cell(mk()))])
+                    res.append((deref(r).vname,[deref(x).v for x in buf.items]))
+                outs.append(res)
+            run.hash_order='fixed'
+            return outs
+        return go
+    def mk_args(self,run):
+        b=self.b
+        def mk():
+            td=lambda x,y: b.hashmap([(b.variant('HashAlgorithm','Sha256'),Agg('HashValue',[u8vec([x])])),(b.variant('HashAlgorithm','Sha512'),Agg('HashValue',[u8vec([y])]))])
+            return b.struct('LinkMetadata',name=mk_string('s0'),materials=b.btreemap([]),products=b.btreemap([(b.vpath('a'),td(1,2)),(b.vpath('b'),td(3,4))]),
+                            env=some(b.btreemap([(mk_string('K'),mk_string('V')),(mk_string('L'),mk_string('W'))])),byproducts=b.byproducts(Int(32,True,0),'o','e'),command=b.command(['x']))
+        return [mk],{}
+    def check(self,run,out,g):
+        rec={'outcome':'?','viol':None,'wit':[],'sample':None,'obl':1}
+        scn={'kind':'writers_deterministic'}
+        if out[0]!='ret':
+            rec['outcome']='panic'; rec['viol']={'kind':'panic','known_key':None,'scenario':scn,'predicted':'panic','what':'a writer panics: '+str(out[1])[:200]}; return rec
+        rec['outcome']='ok'
+        for name,res in zip(('JsonPretty::to_writer','Json::to_writer'),out[1]):
+            (k1,b1),(k2,b2)=res
+            if k1!='Ok' or k2!='Ok':
+                rec['viol']={'kind':'writer_fails','known_key':None,'scenario':scn,'predicted':'err','what':name+' fails on a representable link'}; return rec
+            if b1!=b2:
+                rec['viol']={'kind':'written_bytes_depend_on_hash_order','known_key':None,'scenario':scn,'predicted':'differs','what':'%s writes different bytes for the same link under different hash-map iteration orders:\\n%s\\nvs\\n%s'%(name,bytes(b1).decode(errors='replace')[:300],bytes(b2).decode(errors='replace')[:300])}; return rec
+        if 'same_bytes' not in self.seen: self.seen.add('same_bytes'); rec['wit'].append('same_bytes')
+        rec['sample']={'scenario':scn,'expect':'stable'}
+        return rec
